@@ -45,7 +45,7 @@ TReset ==
 
 C_Call    == IsEv("Call") /\ Call(Ev.c, Ev.a)
 C_Greet   == IsSrv("greet") /\ SrvGreet(Ev.id, Ev.r)
-C_Cmd     == IsSrv("cmd") /\ SrvCmd(Ev.verb, ToSet(Ev.par), Ev.ak, Ev.an, Ev.id, Ev.r, Ev.tls)
+C_Cmd     == IsSrv("cmd") /\ SrvCmd(Ev.verb, Ev.hn, ToSet(Ev.par), Ev.ak, Ev.an, Ev.id, Ev.r, Ev.tls)
 C_Content == IsSrv("content") /\ SrvContent(Ev.full)
 C_Dot     == IsSrv("dot") /\ Ev.id > w.nid /\ SrvDot(Ev.i, Ev.id, Ev.r)
 (* the surplus reply announced by a slot of kind "extra" was folded with that slot *)
@@ -66,7 +66,7 @@ ObsApply(o, e) ==
   CASE e.e = "Call" -> ObsCall(o, e.c, e.a)
     [] e.e = "Srv" ->
          CASE e.k = "greet"   -> ObsGreet(o, e.id, e.r)
-           [] e.k = "cmd"     -> ObsCmd(o, [verb |-> e.verb, par |-> ToSet(e.par), ak |-> e.ak, an |-> e.an,
+           [] e.k = "cmd"     -> ObsCmd(o, [verb |-> e.verb, hn |-> e.hn, par |-> ToSet(e.par), ak |-> e.ak, an |-> e.an,
                                             id |-> e.id, r |-> e.r, tls |-> e.tls])
            [] e.k = "content" -> ObsContent(o, e.full)
            [] e.k = "dot"     -> IF \E i \in 1..Len(o.slots) : o.slots[i].id = e.id THEN o ELSE ObsDot(o, e.i, e.id, e.r)
